@@ -12,7 +12,7 @@ func init() {
 		ID:    "C08",
 		Title: "Stores present external labels consistently",
 		Explain: "(1) Label-set algebra (E14): at every place where TSDBStore.Series, blockSeriesClient.nextBatch and the three PrometheusStore paths build the label set of an outgoing series, the expression is resolved — through local definitions, struct fields set by constructors, parameters bound at the Series call sites, and the bodies of ExtendSortedLabels / rmLabels interpreted as labels.Builder programs — into a term over S (stored labels), E (external labels), Ext and Rm. The term is evaluated in every model of a two-name universe (stored? external? dropped by the request?; nil vs empty replica set; every undetermined branch condition both ways) and must equal the definition: dropped names absent, else the external value, else the stored value. " +
-			"(2) Contradicting selectors: every Send in TSDBStore.Series and PrometheusStore.Series, and every block client creation in BucketStore.Series, is reachable only after the external-label match succeeded (path condition). " +
+			"(2) Contradicting selectors: every Send in TSDBStore.Series and PrometheusStore.Series, and every block client creation in BucketStore.Series, is reachable only after the external-label match succeeded (path condition); and in the three sibling filters (matchesExternalLabels, bucketBlockSet.labelMatchers, bucketBlock.FilterExtLabelsMatchers) every path through the loop over the matchers forwards the matcher, rejects the request, or has seen it match the store's own value (structured path enumeration) — no selector is dropped unevaluated. " +
 			"(3) Frame splitting in TSDBStore.Series (frame-buffer typestate): every appended chunk is sent before the function finishes successfully or the buffer is replaced, no other response overtakes pending chunks, and every frame of a series carries the labels of the first frame.",
 		Assume: []string{"labels.Builder Set/Del/Reset/Labels have their documented meaning", "what a store's external labels are is taken from the table of sources (TSDBStore.extLsetAsLabelSets/getExtLset, bucketBlock.extLset, PrometheusStore.externalLabelsFn)"},
 		Run:    runC08,
@@ -53,11 +53,27 @@ func runC08(c *Ctx) {
 	c.Rule("emitted-labelset-algebra", "emitted labels = external over stored, minus dropped replica labels, in every model", 6)
 	c.Rule("no-series-when-selectors-contradict", "sends only after the external-label match", 3)
 	c.Rule("frames-conserve-chunks", "every chunk appended to a frame is sent; frames repeat the series labels", 2)
+	c.Rule("every-selector-evaluated-or-forwarded", "each matcher is forwarded, rejects the request, or matched the store's own label value — on every path", 3)
 	p := c.Load("pkg/store", "pkg/store/labelpb")
 	if p == nil {
 		return
 	}
 	const rel = "pkg/store"
+	// the three sibling filters of matchers against a store's / block's own labels
+	for _, s := range [][2]string{{"", "matchesExternalLabels"}, {"bucketBlockSet", "labelMatchers"}, {"bucketBlock", "FilterExtLabelsMatchers"}} {
+		construct := rel + "." + s[1]
+		fn := p.Func(rel, s[0], s[1])
+		if fn == nil {
+			c.Incomplete("every-selector-evaluated-or-forwarded", construct, "", "function not found")
+			continue
+		}
+		probs, n := checkMatchersAccounted(p, fn)
+		if n == 0 {
+			c.Incomplete("every-selector-evaluated-or-forwarded", construct, p.Pos(fn.Decl.Pos()), "no loop over the matchers found")
+			continue
+		}
+		c.Check(len(probs) == 0, "every-selector-evaluated-or-forwarded", construct, p.Pos(fn.Decl.Pos()), "selector-dropped-unevaluated", strings.Join(probs, "; "))
+	}
 	type site struct {
 		recv, fn string
 		callers  []string // restricts parameter resolution
